@@ -175,6 +175,23 @@ func (c *Ctx) RelOf(p *types.Package) string {
 	return strings.TrimPrefix(strings.TrimPrefix(p.Path(), ModPath), "/")
 }
 
+// PkgInits returns the init() functions of a library package of the repository (package cmd's registration code is
+// interpreted by the command-layer engine, not here).
+func (c *Ctx) PkgInits(p *packages.Package) []*ast.FuncDecl {
+	if p == nil || !strings.HasPrefix(p.PkgPath, ModPath+"/pkg/") {
+		return nil
+	}
+	var out []*ast.FuncDecl
+	for _, f := range p.Syntax {
+		for _, d := range f.Decls {
+			if fd, ok := d.(*ast.FuncDecl); ok && fd.Recv == nil && fd.Name.Name == "init" && fd.Body != nil {
+				out = append(out, fd)
+			}
+		}
+	}
+	return out
+}
+
 // VarInit returns the initialiser of a repository package-level variable.
 func (c *Ctx) VarInit(v *types.Var) (ast.Expr, *packages.Package) {
 	return c.varInits[v], c.varPkg[v]
